@@ -1007,3 +1007,182 @@ example :
       [.req (rq "a" none .sync (some [(1, 5)])), .req (rq "a" none .async)] = [false, true] := by decide
 
 end LiquidVerif.C23
+
+/-! ## concurrent requests on a thread-safe cache: look-up, up-to-date check, load and store are
+separate atomic steps -/
+namespace LiquidVerif.C23
+open LiquidVerif.CacheLoader
+
+variable {σ η : Type}
+
+theorem mem_rebind {c : Cache (Tpl η)} {k : Str} {cached : Tpl η} {g : Globals} {p : Str × Tpl η}
+    (h : p ∈ (c.rebind k cached g).items) :
+    ∃ q ∈ c.items, p.1 = q.1 ∧ p.2.name = q.2.name ∧ p.2.text = q.2.text ∧ p.2.full = q.2.full ∧ p.2.h = q.2.h := by
+  unfold Cache.rebind at h
+  simp only [List.mem_map] at h
+  obtain ⟨q, hq, e⟩ := h
+  refine ⟨q, hq, ?_⟩
+  split at e <;> subst e <;> simp
+
+theorem inv_rebind (L : Loader σ η) (cfg : Cfg) (P : σ → Prop) (R : Req → Prop) (c : Cache (Tpl η))
+    (k : Str) (cached : Tpl η) (g : Globals) (hI : Inv L cfg P R c) : Inv L cfg P R (c.rebind k cached g) := by
+  intro p hp
+  obtain ⟨q, hq, e1, e2, e3, e4, e5⟩ := mem_rebind hp
+  obtain ⟨r0, s0, m0, h1, h2, h3, h4, h5⟩ := hI q hq
+  exact ⟨r0, s0, m0, h1, h2, by rw [e1]; exact h3, by rw [e3, e4, e5]; exact h4, by rw [e2, e4]; exact h5⟩
+
+/-- a Good template under the key of `r`, with any globals, is a template served for `r`'s own
+(name, namespace) -/
+theorem served_of_good (L : Loader σ η) (cfg : Cfg) (P : σ → Prop) (R : Req → Prop)
+    (hresp : Respects L cfg) (hinj : KeyInj cfg R) (r : Req) (hR : R r) (t : Tpl η) (g : Globals)
+    (hg : Good L cfg P R (cacheKey cfg r.name r.ctx r.kw) t) :
+    Served L P r ({ t with globals := g } : Tpl η).obs := by
+  obtain ⟨r0, s0, m0, hR0, hP0, hk, hsrc, hname⟩ := hg
+  have hid : ident cfg r0 = ident cfg r := hinj r0 r hR0 hR hk.symm
+  have h2 := hresp s0 m0 m0 r0 r hid
+  rw [hsrc] at h2
+  exact ⟨s0, m0, t.full, hP0, h2.symm, hname⟩
+
+/-- what a thread holds is an answer of the underlying loader for its own request -/
+def ThreadGood (L : Loader σ η) (cfg : Cfg) (P : σ → Prop) (R : Req → Prop) (th : Thread η) : Prop :=
+  R th.r ∧
+  match th.pc with
+  | .check cached => Good L cfg P R (cacheKey cfg th.r.name th.r.ctx th.r.kw) cached
+  | .storing t => Good L cfg P R (cacheKey cfg th.r.name th.r.ctx th.r.kw) t
+  | .done (.ok t) => Served L P th.r t.obs
+  | _ => True
+
+theorem threadStep_good (L : Loader σ η) (cfg : Cfg) (P : σ → Prop) (R : Req → Prop)
+    (hresp : Respects L cfg) (hinj : KeyInj cfg R) (c : Cache (Tpl η)) (s : σ) (th : Thread η)
+    (hP : P s) (hI : Inv L cfg P R c) (hT : ThreadGood L cfg P R th) :
+    Inv L cfg P R (threadStep L cfg c s th).1 ∧ ThreadGood L cfg P R (threadStep L cfg c s th).2 := by
+  obtain ⟨hR, hpc⟩ := hT
+  unfold threadStep
+  cases hp : th.pc with
+  | start =>
+    simp only
+    have hc1 : Inv L cfg P R (c.getitem (cacheKey cfg th.r.name th.r.ctx th.r.kw)).1 := fun p hp => hI p (mem_getitem hp)
+    rcases hgi : c.getitem (cacheKey cfg th.r.name th.r.ctx th.r.kw) with ⟨c1, o⟩
+    rw [hgi] at hc1
+    cases o with
+    | none => exact ⟨hc1, hR, trivial⟩
+    | some cached =>
+      have hmem : (c.getitem (cacheKey cfg th.r.name th.r.ctx th.r.kw)).2 = some cached := by rw [hgi]
+      have hg := hI _ (getitem_some_mem hmem)
+      simp only
+      cases cfg.autoReload with
+      | true => exact ⟨hc1, hR, hg⟩
+      | false =>
+        simp only [Bool.false_eq_true, if_false]
+        exact ⟨inv_rebind L cfg P R c1 _ _ _ hc1, hR, served_of_good L cfg P R hresp hinj th.r hR cached _ hg⟩
+  | check cached =>
+    rw [hp] at hpc
+    simp only
+    cases L.uptodate s th.r.mode cached.h with
+    | error e => exact ⟨hI, hR, trivial⟩
+    | ok b =>
+      cases b with
+      | false => exact ⟨hI, hR, trivial⟩
+      | true => exact ⟨inv_rebind L cfg P R c _ _ _ hI, hR, served_of_good L cfg P R hresp hinj th.r hR cached _ hpc⟩
+  | loading =>
+    simp only
+    cases hl : refGetTemplate L cfg s th.r with
+    | error e => exact ⟨hI, hR, trivial⟩
+    | ok t =>
+      refine ⟨hI, hR, ?_⟩
+      unfold refGetTemplate baseLoad at hl
+      split at hl
+      · cases hl
+      · next text full h hg =>
+        cases hl
+        exact ⟨th.r, s, th.r.mode, hR, hP, rfl, hg, rfl⟩
+  | storing t =>
+    rw [hp] at hpc
+    simp only
+    refine ⟨?_, hR, ?_⟩
+    · intro p hp'
+      rcases mem_setitem hp' with e | hm
+      · subst e; exact hpc
+      · exact hI p hm
+    · have := served_of_good L cfg P R hresp hinj th.r hR t t.globals hpc
+      simpa using this
+  | done o =>
+    rw [hp] at hpc
+    exact ⟨hI, hR, hpc⟩
+
+/-- invariant of the concurrent system -/
+def CInv (L : Loader σ η) (cfg : Cfg) (P : σ → Prop) (R : Req → Prop) (st : CState σ η) : Prop :=
+  Inv L cfg P R st.cache ∧ P st.store ∧ ∀ th ∈ st.threads, ThreadGood L cfg P R th
+
+theorem cstep_inv (L : Loader σ η) (cfg : Cfg) (P : σ → Prop) (R : Req → Prop)
+    (hresp : Respects L cfg) (hinj : KeyInj cfg R) (st : CState σ η) (e : CEvent σ)
+    (he : ∀ s, e = .store s → P s) (h : CInv L cfg P R st) : CInv L cfg P R (cstep L cfg st e) := by
+  obtain ⟨hI, hP, hT⟩ := h
+  cases e with
+  | store s => exact ⟨hI, he s rfl, hT⟩
+  | step i =>
+    simp only [cstep]
+    cases hth : st.threads[i]? with
+    | none => exact ⟨hI, hP, hT⟩
+    | some th =>
+      have hmem : th ∈ st.threads := List.mem_of_getElem? hth
+      have := threadStep_good L cfg P R hresp hinj st.cache st.store th hP hI (hT th hmem)
+      refine ⟨this.1, hP, ?_⟩
+      intro x hx
+      rcases List.mem_or_eq_of_mem_set hx with h1 | h1
+      · exact hT x h1
+      · rw [h1]; exact this.2
+
+/-- **Concurrent requests, any schedule** (any number of threads, any interleaving of their atomic
+steps with each other and with changes of the sources, auto-reload on or off, any capacity): every
+thread that has returned a template returned one that the underlying loader produced **for that
+thread's own (name, namespace)** on a store the schedule passed through, and every cache entry is such
+a template for its key — no cross-key substitution, nothing invented. `_partial`: non-colliding key
+strings as before. What concurrency does lose is recency: `lost_update`. -/
+theorem concurrent_served_partial (L : Loader σ η) (cfg : Cfg) (P : σ → Prop) (R : Req → Prop)
+    (hresp : Respects L cfg) (hinj : KeyInj cfg R) (es : List (CEvent σ)) (st : CState σ η)
+    (hes : ∀ s, CEvent.store s ∈ es → P s) (h : CInv L cfg P R st) :
+    CInv L cfg P R (crun L cfg st es) := by
+  induction es generalizing st with
+  | nil => exact h
+  | cons e es ih =>
+    simp only [crun]
+    apply ih
+    · intro s hs; exact hes s (List.mem_cons_of_mem _ hs)
+    · exact cstep_inv L cfg P R hresp hinj st e (fun s hs => hes s (by rw [hs]; exact List.mem_cons_self)) h
+
+/-- the initial state (empty cache, every thread about to start) satisfies the invariant -/
+theorem cinit_inv (L : Loader σ η) (cfg : Cfg) (P : σ → Prop) (cap : Nat) (s : σ) (rs : List Req) (hP : P s) :
+    CInv L cfg P (· ∈ rs) (cinit cap s rs) := by
+  refine ⟨by intro p hp; simp [cinit, Cache.empty] at hp, hP, ?_⟩
+  intro th hth
+  simp only [cinit, List.mem_map] at hth
+  obtain ⟨r, hr, e⟩ := hth
+  subst e
+  exact ⟨hr, trivial⟩
+
+private def thText : Thread Handle → Option Text
+  | { pc := .done (.ok t), .. } => some t.text
+  | _ => none
+
+/-- **Lost update** (auto-reload off makes it permanent): two threads miss the same key; thread 0
+loads version 1, the source changes to version 2, thread 1 loads and stores version 2 and returns it,
+then thread 0 stores its older version 1 over it. The cache ends up holding version 1 although
+version 2 had already been loaded, stored and returned; a third request is then served version 1. -/
+theorem lost_update :
+    let cfg : Cfg := { autoReload := false, nsKey := false, eg := [] }
+    let fin := crun dictLoader cfg (cinit 2 (st [(0, "a", 1)]) [rq "a" none .sync, rq "a" none .sync, rq "a" none .sync])
+      [.step 0, .step 1, .step 0, .store (st [(0, "a", 2)]), .step 1, .step 1, .step 0, .step 2]
+    fin.threads.map thText = [some ("a".toList, 1), some ("a".toList, 2), some ("a".toList, 1)] ∧
+    (find fin.cache.items "a".toList).map (·.text) = some ("a".toList, 1) := by
+  decide
+
+/-- with auto-reload on the stale entry left by a lost update is detected by the next request -/
+theorem lost_update_healed_by_auto_reload :
+    let fin := crun dictLoader cfgOn (cinit 2 (st [(0, "a", 1)]) [rq "a" none .sync, rq "a" none .sync, rq "a" none .sync])
+      [.step 0, .step 1, .step 0, .store (st [(0, "a", 2)]), .step 1, .step 1, .step 0,
+       .step 2, .step 2, .step 2, .step 2]
+    fin.threads.map thText = [some ("a".toList, 1), some ("a".toList, 2), some ("a".toList, 2)] := by
+  decide
+
+end LiquidVerif.C23
